@@ -36,7 +36,7 @@ def run(ctx):
     for bi, t in add_n.calls():
         if t.callee_name() in ("index", "index_mut"):
             a = [tb.operand(x, bi, len(add_n.blocks[bi].stmts)) for x in t.args]
-            if a[0] == ("field", selfp, "table"):
+            if a[0] == ("field", selfp, "table") and not (a[1][0] == "adt" and a[1][1] == "std::ops::RangeFull"):     # `&mut self.table[..]` is a view, not a cell
                 (idx_w if t.callee_name() == "index_mut" else idx_r).append(a[1])
     # a slice view of the table (`let table = self.table.as_mut_slice()`) is indexed by a built-in place projection, not a call
     for bi, blk in enumerate(add_n.blocks):
